@@ -25,6 +25,9 @@ func c17Title(r *rng) string {
 		return r.pick([]string{"NOTICE", "Notice", "notice", "AUDIT", "audit", "Audit"})
 	case 2:
 		return ""
+	case 4:
+		// white space at either end is part of the title
+		return r.pick([]string{"HNT ", " pad", " both ", "tab\t", "nl\n", "\u00a0nbsp", "in side"})
 	case 3:
 		return r.pick([]string{"net\\io", "\"quoted\"", "tab\there", "nl\nx", "trail\\", "x\x01y", "é-acc", "日本", "a b", "\xffbad", "L#33"})
 	}
